@@ -206,7 +206,7 @@ fn gen_grammar(r: &mut Rng) -> String {
         g.push_str("use std::str::FromStr;\n");
     }
     write!(g, "{attr}grammar;\n").unwrap();
-    match r.below(5) {
+    match r.below(7) {
         0 => {
             // sequence / alternatives with nasty literals, comments inside actions
             write!(
@@ -240,6 +240,16 @@ fn gen_grammar(r: &mut Rng) -> String {
                 g,
                 "pub {n0}: (usize, usize, usize) = {{\n    <l:@L> <v:{n1}+> <o:{}?> <r:@R> => {{\n        let s = \"// not a comment {{\";\n        (l, v.len() + s.len() + o.map(|_| 1).unwrap_or(0), r)\n    }},\n}};\n{n1}: () = {{ {} => (), {} {} => () }};\n",
                 t(0), t(1), t(2), t(3)
+            )
+            .unwrap();
+        }
+        5 | 6 => {
+            // action code with string literals, raw strings, byte strings and block comments that span several
+            // source lines (no `\\` continuation): their content must not depend on the indentation flags
+            write!(
+                g,
+                "pub {n0}: usize = {{\n    <a:{n1}> {} => {{\n        let s = \"line one\n    line two\n\n  {{ line four\";\n        let r = r\"raw\n  raw two \\\";\n        let h = r#\"hash \"\n}}\n  quoted\"#;\n        /* a comment\n           over several lines }} */\n        a + s.len() + r.len() + h.len()\n    }},\n}};\n{n1}: usize = {{\n    {} => b\"bytes\n  more bytes\".len(),\n    {} <x:{n1}> => x + \"\n\".len(),\n}};\n",
+                t(0), t(1), t(2)
             )
             .unwrap();
         }
@@ -299,6 +309,10 @@ fn hash(s: &str) -> u64 {
 const LINE_POOL: &[&str] = &[
     "fn f() {", "}", "match x {", "0 => {", "},", "let v = [", "];", "g(", ");", "", "x += 1;", "&[", "})", "]) {", "// State 3",
     "let s = \"// {\";", "'{' => 1,", "r#\"}\"#;", "pub(crate) mod m {", "é(", ")", "{", "(", "[", "]", "} else {", "a[(", ")];",
+    // multi-line buffers (user action code is written by one rust! call): newlines inside string literals,
+    // raw strings, byte strings and block comments; the indentation must be written once, before the buffer
+    "let s = \"first\n    second\n\n third\";", "x(r\"a\n  b\") {", "let b = b\"l1\nl2\";\nlet c = 1;", "let r = r#\"q\"\n}\n{\"#;",
+    "/* block\n   comment\n*/ y();", "f(\n    1,\n    2,\n);", "{\n    let t = \"\n\";\n    t\n}", "\"\n\"",
 ];
 const COMMENT_POOL: &[&str] = &["// State 0", "//", "//     E = E (*) \"+\" T [\"a\"]", "    // on \"(\", goto 3", "// simulate E = E, \"{\" => ActionFn(1);", "// x {", "// y ("];
 
